@@ -12,6 +12,7 @@ import concurrent.futures
 import multiprocessing
 
 VERIF = os.path.dirname(os.path.dirname(os.path.abspath(__file__)))
+RECURSION_LIMIT = 40000      # Python frames; worker threads have a 512 MB C stack
 
 
 class HarnessError(Exception):
@@ -184,7 +185,7 @@ def _in_big_thread(fn, *args):
             box['e'] = e
             box['tb'] = traceback.format_exc()
     threading.stack_size(512 * 1024 * 1024)
-    sys.setrecursionlimit(40000)
+    sys.setrecursionlimit(RECURSION_LIMIT)
     t = threading.Thread(target=target)
     t.start()
     t.join()
@@ -211,9 +212,15 @@ def _shard_body(prop, tier, seed, shard, n_examples, genome_len, known):
         faulthandler.dump_traceback_later(prop.case_timeout, exit=True)
         if getattr(src, 'struct_exhausted', src.exhausted):
             stats.exhausted_genomes += 0 if stats.frozen else 1
+        # Hypothesis sets the interpreter's recursion limit to (current depth + 2000) around the test function;
+        # the searches we compare may legitimately need more ("within the Python recursion depth the search
+        # needs"), and the replay path runs without Hypothesis: use one fixed, generous limit everywhere.
+        old_limit = sys.getrecursionlimit()
+        sys.setrecursionlimit(RECURSION_LIMIT)
         try:
             out = prop.decide(case)
         finally:
+            sys.setrecursionlimit(old_limit)
             faulthandler.cancel_dump_traceback_later()
         stats.add(prop, case, out)
         if out.status == 'fail':
